@@ -27,9 +27,9 @@ DEFAULT_FILL_VALUE = {
 
 CAST_TO = {
     # "nansum": {np.bool_: np.int64},
-    "nanmean": {np.int_: np.float64},
-    "nanvar": {np.int_: np.float64},
-    "nanstd": {np.int_: np.float64},
+    "nanmean": {np.integer: np.float64},
+    "nanvar": {np.integer: np.float64},
+    "nanstd": {np.integer: np.float64},
     "nanfirst": {np.datetime64: np.int64, np.timedelta64: np.int64},
     "nanlast": {np.datetime64: np.int64, np.timedelta64: np.int64},
     "nancount": {np.datetime64: np.int64, np.timedelta64: np.int64},
@@ -55,6 +55,16 @@ def _numbagg_wrapper(
         for from_, to_ in cast_to.items():
             if np.issubdtype(array.dtype, from_):
                 array = array.astype(to_, copy=False)
+
+    if (
+        dtype is not None
+        and array.dtype.kind in "iu"
+        and np.dtype(dtype).kind in "iuf"
+        and np.dtype(dtype).itemsize > array.dtype.itemsize
+    ):
+        # numbagg accumulates in the dtype it is given: widen first,
+        # otherwise sums and products wrap at the (narrower) width of the input
+        array = array.astype(dtype)
 
     func_ = getattr(numbagg.grouped, f"group_{func}")
 
